@@ -72,7 +72,7 @@ KIND_CLASS = {
 
 
 def plan(tier, seed):
-    n = 110 if tier == "quick" else 2600
+    n = 200 if tier == "quick" else 2600
     return [{"shard": i, "cases": n} for i in range(NSHARDS)]
 
 
